@@ -63,8 +63,16 @@ Definition raw_in_class (a : arg) : bool :=
   | AList l => negb (forallb (item_raw_okb true) l)
   | AIter l => negb (forallb (item_raw_okb false) l)
   end.
-(* known class K4: symmetric_difference(_update) given a list *)
-Definition is_list_arg (a : arg) : bool := match a with AList _ => true | _ => false end.
+(* known class K4 (symdiff-list-class-equality): symmetric_difference(_update) given a LIST tests
+   membership of self's objects with fsBase.__eq__ (class and location); it goes wrong exactly when
+   the list holds, for a path of self, an object of another class.  (Lists naming a path twice are
+   outside the domain: which duplicate wins is not fixed by the property.) *)
+Definition symdiff_list_class (s : cset) (es : list entry) : bool :=
+  existsb (fun e => match dget (eloc e) (ents s) with
+                    | Some x => negb (N.eqb (ekind x) (ekind e))
+                    | None => false
+                    end) es.
+
 
 (* ---- the full statements (kept visible; some are refuted for the faithful model) *)
 Definition difference_full_statement : Prop :=
